@@ -41,21 +41,26 @@ def probe_module(m, rng_seeds, nvals):
     lines = []
     for tn, _ in m["defs"]:
         for k in range(nvals):
-            lines.append("rfill %s %d %d" % (tn, rng_seeds.below(100000), rng_seeds.choice([8, 32, 64, 200])))
+            lines.append("wfill %s %d %d" % (tn, rng_seeds.below(100000), rng_seeds.choice([8, 32, 64, 200])))
     outs, crashes = run_robust(m["exe"], lines)
     for l, rc, err in crashes:
         k, fr = frames(err, rc)
         recs.append({"cls": "crash", "stage": "rfill", "tn": l.split()[1] if l else None, "cmd": l, "rc": rc, "kind": k, "frames": fr, "err": err[-1800:]})
     vals = set()
+    facts = {}
     nfill = collections.Counter()
     for l, o in zip(lines, outs):
         f = o.split()
         tn = l.split()[1]
-        if len(f) == 3 and f[0] == "OK" and f[1] != "ENCFAIL" and f[2] == "ck=0":
+        if len(f) == 5 and f[0] == "OK" and f[1] != "ENCFAIL" and f[2] == "ck=0" and f[3] == "dck=0":
             vals.add((tn, f[1]))
+            facts[(tn, f[1])] = f[4].split("=")[1]
             nfill["ok"] += 1
+        elif len(f) == 5 and f[1] == "ENCFAIL" and f[3] == "dck=0":
+            nfill["DER-ENCFAIL dck=0"] += 1
+            recs.append({"cls": "fail", "tn": tn, "syn": "der", "val": "", "cmd": l, "status": "FILL-ENCFAIL", "facts": f[4].split("=")[1]})
         else:
-            nfill[" ".join(f[:1] + f[2:3]) if len(f) == 3 and f[1] != "ENCFAIL" else o[:30]] += 1
+            nfill[" ".join(f[:1] + f[2:4]) if len(f) == 5 else o[:30]] += 1
     recs.append({"cls": "fillstat", "stat": dict(nfill)})
     vals = sorted(vals)
     l2 = ["rt1 %s der %s %s" % (tn, v, s) for tn, v in vals for s in SYNS]
@@ -71,13 +76,13 @@ def probe_module(m, rng_seeds, nvals):
         if o in ("CRASH", "HANG"):
             rc, err = cr[l]
             k, fr = frames(err, rc)
-            recs.append({"cls": "crash", "stage": "rt", "tn": tn, "syn": s, "val": v, "cmd": l, "rc": rc, "kind": k, "frames": fr, "err": err[-1800:]})
+            recs.append({"cls": "crash", "stage": "rt", "tn": tn, "syn": s, "val": v, "cmd": l, "rc": rc, "kind": k, "frames": fr, "err": err[-1800:], "facts": facts.get((tn, v))})
             continue
         st = o.split("=", 1)[1] if "=" in o else o
         if st == "OK":
             nok += 1
             continue
-        recs.append({"cls": "fail", "tn": tn, "syn": s, "val": v, "cmd": l, "status": st})
+        recs.append({"cls": "fail", "tn": tn, "syn": s, "val": v, "cmd": l, "status": st, "facts": facts.get((tn, v))})
     recs.append({"cls": "okstat", "ok": nok, "total": len(l2)})
     return recs
 
@@ -91,7 +96,7 @@ def main():
     nmods, ntypes, nvals = int(kw.get("nmods", 10)), int(kw.get("ntypes", 5)), int(kw.get("nvals", 6))
     fo = open(out, "a")
     for seed in range(s0, s1 + 1):
-        rng = Rng(seed)
+        rng = Rng(Rng(seed).next())     # Rng(n) and Rng(n+1) are the same stream shifted by one draw
         mods = widefind.generate(rng, nmods, ntypes, features=feats, prefix="S%dM" % seed, maxdepth=int(kw.get("depth", 3)))
         build_modules(mods, tag="triage%d" % seed, moddrv_extra=EXTRA)
         subs = [Rng(rng.next()) for _ in mods]
